@@ -434,7 +434,7 @@ func genC02(r *vh.Runner) {
 		return
 	}
 	const chunk = 48
-	masks := []byte{0} // 0 = one seed-chosen non-zero mask per offset
+	masks := []byte{0, 0x80, 0x01} // 0 = one seed-chosen non-zero mask per offset; plus the top and the bottom bit
 	if r.Thorough() {
 		masks = nil // every non-zero mask: the single-byte tamper space is enumerated completely
 		for m := 1; m < 256; m++ {
